@@ -10,7 +10,11 @@
 //! H documents with a history (earlier renumbering, deletions, additions, saving, stale max_id)
 //! compared against the state right before the call, W hundreds to thousands of objects,
 //! L alias objects (indirect objects whose whole value is a reference), arrays and scalars as
-//! whole objects - these carry no tag; their new ids are read off the references leading to them.
+//! whole objects - these carry no tag; their new ids are read off the references leading to them,
+//! M page trees whose Kids hold a dangling / unusable entry of every flavour (in particular the
+//! number of a live object under another generation) and Pages nodes without a usable Kids entry
+//! among page siblings, S alias documents (indirect Kids / Type / Count / Pages / Root) with a
+//! stale max_id or a history through the public `objects` map.
 use lopdf::{Bookmark, Dictionary, Document, Object, ObjectId, Stream};
 use serde_json::{json, Value};
 use std::collections::{BTreeMap, BTreeSet, HashMap};
@@ -2796,7 +2800,7 @@ fn family_m(run: &Run, shv: &Shared) {
                                              "ids": spec.roles().iter().zip(ids.iter()).map(|(r, i)| json!([r, i.0, i.1])).collect::<Vec<_>>()});
                             let tg = &md.targets;
                             let mut cfgs: Vec<Vec<Bm>> = vec![vec![]];
-                            if !*reduced {
+                            if thorough {
                                 cfgs.push(vec![(*tg.last().unwrap(), None)]);
                             }
                             cfgs.push(vec![(*tg.last().unwrap(), None), (tg[0], Some(0))]);
@@ -2963,8 +2967,25 @@ fn main() {
          canonical order (aliases numbered above what they stand for) / reversed / a stride walk x page-number permutations (all when a page-related \
          feature is present, else identity and reversal; thorough all) x generations none / alternating x every start value x dangling references \
          and stale-generation references always present x bookmark lists: none, one on each of first page / last page / bookmark alias / alias kid \
-         (quick: only the alias targets, or the last page when there is none), and the last of these with a nested child on the first page",
+         (quick: only the alias targets, or the last page when there is none), and the last of these with a nested child on the first page. \
+         Family L has two further features: /Type of the root Pages node and of the first and last page behind a reference to a name object, /Count behind a reference to an integer object. \
+         Family M (page trees that are malformed but inside the domain 'arbitrary reference graphs ... dangling references'): catalog, root Pages (or root -> one intermediate node), 2 or 3 \
+         pages, whose Kids array is EVERY arrangement of the pages with at most one unusable kid D and at most one Pages node N without a usable Kids entry. D: a reference to a number nothing \
+         uses (far away / the first free number of the new range); the number of a LIVE object X under the other generation - X a page taken out of the tree / a Pages node with a page of its \
+         own / a plain dictionary, referenced from the catalog's OpenAction and as bookmark target, or referenced from nowhere; the number of the first / last page of the tree, of the root, of \
+         the catalog under the other generation; an integer; null; the catalog; a live plain dictionary. N: Kids missing / dangling / an integer / a dictionary / [] / a name / null / a \
+         reference to an integer object / to a dictionary object / the number of a live array object (holding the first page) under the other generation. D alone and N alone: x in the root or \
+         in the intermediate node x numbers dense from 1 / from 3 / sparse x page numbers lowest or highest x every permutation of page numbers relative to page order x generations none / \
+         alternating x every start value x bookmarks none / (X or last page) with a nested child on the first page (thorough: + a single one). D and N together: every arrangement, quick: in \
+         the root, dense from 1 / sparse, page numbers highest, alternating generations, start in {{plain, 2, n, max+1}} (thorough: the full product). Family S (stale max_id and the public map): \
+         alias documents of family L with the feature sets {{none, all, Kids+Type+Count indirect, kid+interkid+Pages+Root aliases, and 12 single features}} x 2 or 3 pages x numbers dense / sparse \
+         (thorough + dense from 3) x roles canonical / reversed (thorough + stride walk) x every page permutation x generations none / alternating; S1: Document::max_id set to 0, 1, the \
+         median number, highest-1, highest+100 before the call x every start value x bookmarks none / nested pair; S2: a history through the public map or lopdf's methods (objects.insert far \
+         above max_id; objects.remove of the last object; add_object; save_to; renumber then max_id = 0; get_pages then max_id = 1; insert high then max_id = 1; remove last then insert high) \
+         then every start value computed on the resulting state, compared with the state right before the call",
     );
+    run.assume("family M: a Kids entry that does not resolve, is no reference, or names an object that is no page-tree node, and a Pages node whose Kids is missing or not an array, contribute no pages: the reference page order is the depth-first walk that skips them (exact id lookups only). The objects such entries would have named under another generation are ordinary live objects: they must survive exactly once, like every other object");
+    run.assume("family S: Document::max_id before the call is an input like any other (a public field that objects.insert does not maintain); after the call it must be the last assigned number whatever it was before");
     run.assume("objects without a tag (alias objects, arrays, scalars as whole objects) are allowed in any document: the new id of a reachable one is read off the reference that leads to it from an object whose counterpart is already known, and the content comparison then has to hold for the pair; unreachable ones are paired in ascending order within their generation. Every dictionary and stream still carries a unique /Tag");
     run.assume("a Kids entry (or Root, Pages, Kids, Parent, Contents value) that names an alias object stands for the object at the end of the alias chain (ISO 32000-1 7.3.10); page order is compared on the Page dictionaries the yielded ids denote, so page_iter() may yield the entry's id or the page's own id");
     run.assume("family H compares the renumbering under test against the document state right before that call (objects, trailer, bookmark targets), not against the generated document; objects added by the history carry fresh tags");
